@@ -162,7 +162,11 @@ impl BigRat {
             // Handle recurring decimals
             if placed_decimal {
                 // This catches really long period ones like 1/3937.
-                if let (index, false) = seen_remainders.insert_full(cursor.clone()) {
+                // Keyed on the (numerator, denominator) pair rather than the ratio:
+                // hashing a ratio recurses once per continued-fraction term, which
+                // overflows the stack for values with very large denominators.
+                let key = (cursor.numer().into_inner(), cursor.denom().into_inner());
+                if let (index, false) = seen_remainders.insert_full(key) {
                     // If the remainder is the same as a previous one, then it's recurring.
                     let period = n - intdigits - index as u32;
                     buf.insert(buf.len() - period as usize, '[');
